@@ -40,7 +40,16 @@ pub fn run_case(id: &str, r: &mut Rng, out: &mut String) {
         lists.push(rows1);
     }
     let first_day = lists[0].iter().map(|t| jd(t.settlement_date)).min().unwrap_or(ledger::BASE_JD);
-    let rows = app::interleave(r, lists);
+    let mut rows = app::interleave(r, lists);
+    // now and then the ticker is typed in lower case — in the rows and in `-b` alike
+    let key0 = if r.chance(15) { "s0" } else { "S0" };
+    if key0 == "s0" {
+        for t in rows.iter_mut() {
+            if t.security == "S0" {
+                t.security = "s0".to_string();
+            }
+        }
+    }
     let zero = r.chance(8);
     // no shares but a cost base (what a fully denied loss leaves behind until the repurchase): the
     // equivalent row is a cost-base adjustment instead of a purchase
@@ -49,7 +58,7 @@ pub fn run_case(id: &str, r: &mut Rng, out: &mut String) {
     let price = if r.chance(15) { Decimal::ZERO } else { Decimal::new(r.range(1, 500000), 4) };
     let c = if zero { Decimal::ZERO } else if zero_with_cost { Decimal::new(r.range(1, 500000), 2) } else { n * price };
     // an opening position of an unrelated security must not matter
-    let mut inits = vec![("S0".to_string(), n, c)];
+    let mut inits = vec![(key0.to_string(), n, c)];
     if r.chance(30) {
         inits.push(("QQQ".to_string(), Decimal::new(7, 0), Decimal::new(70, 0)));
     }
@@ -61,22 +70,22 @@ pub fn run_case(id: &str, r: &mut Rng, out: &mut String) {
     let res_a = app::run_app(&rows, &[], &inits);
     let mut rows_b = Vec::new();
     if zero_with_cost {
-        let mut t = opening_buy("S0", Decimal::ONE, Decimal::ONE, first_day - 31 - r.range(0, 400) as i32);
+        let mut t = opening_buy(key0, Decimal::ONE, Decimal::ONE, first_day - 31 - r.range(0, 400) as i32);
         t.action_specifics = acb::portfolio::TxActionSpecifics::Sfla(acb::portfolio::SflaTxSpecifics {
             shares_affected: acb::util::decimal::PosDecimal::try_from(Decimal::ONE).unwrap(),
             amount_per_share: acb::util::decimal::PosDecimal::try_from(c).unwrap(),
         });
         rows_b.push(t);
     } else if !zero {
-        rows_b.push(opening_buy("S0", n, price, first_day - 31 - r.range(0, 400) as i32));
+        rows_b.push(opening_buy(key0, n, price, first_day - 31 - r.range(0, 400) as i32));
     }
     rows_b.extend(rows.iter().cloned());
-    let inits_b: Vec<(String, Decimal, Decimal)> = inits.iter().filter(|i| i.0 != "S0").cloned().collect();
+    let inits_b: Vec<(String, Decimal, Decimal)> = inits.iter().filter(|i| i.0 != key0).cloned().collect();
     let res_b = app::run_app(&rows_b, &[], &inits_b);
     out.push_str(&format!("case {} symbase zero={} n={} c={}\n", id, if zero { 1 } else { 0 }, n, c));
     app::emit_result(&uni, "implA", &res_a, out);
     app::emit_result(&uni, "implB", &res_b, out);
-    let mut repro = format!("A: -b S0:{}:{}   B: opening purchase of {} @ {} prepended\n", n, c, n, price);
+    let mut repro = format!("A: -b {}:{}:{}   B: opening purchase of {} @ {} prepended\n", key0, n, c, n, price);
     repro.push_str(&app::txs_to_csv(&rows_b));
     out.push_str(&format!("repro {}\n", oneline(&repro)));
     out.push_str("end\n");
